@@ -138,6 +138,8 @@ def _r073(ctx: Ctx) -> None:
 
             def call(self, it, func, args, kwargs, node, env):
                 if isinstance(func, BoundMethod) and func.closure.fn.name == 'probability_distribution':
+                    dist_args.append((args[0] if args else kwargs.get('code'),
+                                      args[1] if len(args) > 1 else kwargs.get('error_rate')))
                     return tuple(Event({p}) for p in PAULIS)
                 if isinstance(func, Closure) and getattr(func.fn, 'name', '') == 'fast_choice':
                     params = [a.arg for a in func.fn.args.args]
@@ -154,6 +156,7 @@ def _r073(ctx: Ctx) -> None:
                 return NOT_HANDLED
         it = Interp(m, H())
         rng = _Rng('caller') if given else None
+        dist_args = []
 
         def thunk():
             rec.clear()
@@ -179,6 +182,9 @@ def _r073(ctx: Ctx) -> None:
                 ok, detail = False, f'draw uses {r!r} instead of the generator passed by the caller'
             if not given and not isinstance(r, _Rng):
                 ok, detail = False, f'without a generator the draw uses {r!r}'
+        if ok and [(repr(a), repr(b)) for a, b in dist_args] != [(repr(Sym('code')), repr(Sym('rate')))]:
+            ok, detail = False, (f'probability_distribution is asked for {dist_args!r}; generate was called with '
+                                 f'(code, error_rate)')
         ctx.ob('R07.3', site, f'generate: letter P drawn with probability of event {{P}}; rng threading '
                               f'({"rng supplied" if given else "rng=None"})', ok, detail,
                key=f'PauliErrorModel.generate|draws[{given}]', facts=[repr(c) for c in calls])
@@ -391,6 +397,9 @@ def run(ctx: Ctx) -> None:
         _r074(ctx)
     with ctx.part():
         facts = sector.analyse(ctx.model)
-        facts_to_obs(ctx, facts, {'get_weights': 'R07.5', 'prior': 'R07.6', 'update-formula': 'R07.7'})
+        facts_to_obs(ctx, facts, {'get_weights': 'R07.5', 'prior': 'R07.6', 'update-formula': 'R07.7', 'rate': 'R07.6'})
     with ctx.part():
         _r077(ctx)
+    with ctx.part():
+        from .c08 import weights_vs_distribution
+        weights_vs_distribution(ctx, 'R07.5')
